@@ -57,6 +57,34 @@ class QuietList(list):
 cminx.list = QuietList
 captured = []
 cminx.document = lambda input_file, settings: captured.append(settings)
+import cminx.config as _cfg
+
+
+class _PathAtCall:
+    def __getattr__(self, n):
+        return getattr(os.path, n)
+
+    @staticmethod
+    def abspath(p):
+        return os.path.normpath(os.path.join("/now/cwd", p))
+
+
+class _OsAtCall:
+    """the working directory *at the time main() runs* (changed since `import cminx`): everything else is the real os module"""
+    path = _PathAtCall()
+
+    def __getattr__(self, n):
+        return getattr(os, n)
+
+    @staticmethod
+    def getcwd():
+        return "/now/cwd"
+
+
+_cfg.os = _OsAtCall()
+cminx.os = _OsAtCall()
+import confuse.templates as _ct
+_ct.os = _OsAtCall()               # confuse falls back to the current directory for sources without a file
 DIRS = ["out", "/abs/out", "sub/o", "../up"]
 
 
@@ -108,8 +136,8 @@ def check(u_set: bool, s_set: bool, c_set: bool, cps: $$CPS$$, rel_s: bool, rel_
         try:
             cminx.main(args)
         except confuse.ConfigError:
-            return hc.report(True, which=which, kind=kind, use_s=use_s)
-        return hc.report(False, which=which, kind=kind, use_s=use_s)
+            return hc.report(True, u_set=u_set, s_set=s_set, c_set=c_set, cps=cps, rel_s=rel_s, rel_u=rel_u, which=which, kind=kind, use_s=use_s)
+        return hc.report(False, u_set=u_set, s_set=s_set, c_set=c_set, cps=cps, rel_s=rel_s, rel_u=rel_u, which=which, kind=kind, use_s=use_s)
     # values are built only for the sources that set the option (a menu lookup with a symbolic index forks)
     uv = _val(cps, 0) if u_set else None
     sv = _val(cps, 1) if s_set else None
@@ -134,7 +162,7 @@ def check(u_set: bool, s_set: bool, c_set: bool, cps: $$CPS$$, rel_s: bool, rel_
             args = args + [CLI, cv]
     cminx.main(args)
     if len(captured) != 1:
-        return hc.report(False, u_set=u_set, s_set=s_set, c_set=c_set, cps=cps, rel_s=rel_s, rel_u=rel_u, use_s=use_s)
+        return hc.report(False, u_set=u_set, s_set=s_set, c_set=c_set, cps=cps, rel_s=rel_s, rel_u=rel_u, which=which, kind=kind, use_s=use_s)
     got = getattr(getattr(captured[0], SECTION), OPTION)
     if MODE == "excl":
         # exclude patterns: the union of the patterns from all sources
@@ -143,7 +171,7 @@ def check(u_set: bool, s_set: bool, c_set: bool, cps: $$CPS$$, rel_s: bool, rel_
         if not ok:                     # ... is not prescribed: any order of the same multiset is fine
             ok = len(got) == len(exp) and all(sum(1 for g in got if g == e) == sum(1 for x in exp if x == e) for e in exp)
     elif MODE == "outdir":
-        cwd = os.getcwd()
+        cwd = "/now/cwd"                # the current directory when main() runs, not when cminx was imported
         rel = rel_s or rel_u            # relative_to_config in effect (true in any source that sets it; default false)
         if c_set: exp = os.path.join(cwd, cv)                      # the command line has no file: current directory
         elif s_set: exp = os.path.join("/cfg" if rel else cwd, sv)
@@ -156,4 +184,4 @@ def check(u_set: bool, s_set: bool, c_set: bool, cps: $$CPS$$, rel_s: bool, rel_
             ok = list(got) == list(exp)
         else:
             ok = got == exp
-    return hc.report(ok, u_set=u_set, s_set=s_set, c_set=c_set, cps=cps, rel_s=rel_s, rel_u=rel_u, use_s=use_s)
+    return hc.report(ok, u_set=u_set, s_set=s_set, c_set=c_set, cps=cps, rel_s=rel_s, rel_u=rel_u, which=which, kind=kind, use_s=use_s)
